@@ -7,6 +7,7 @@ import (
 	"unsafe"
 
 	remoteexecution "github.com/bazelbuild/remote-apis/build/bazel/remote/execution/v2"
+	"github.com/buildbarn/bb-remote-execution/pkg/builder"
 	"github.com/buildbarn/bb-remote-execution/pkg/filesystem/access"
 	"github.com/buildbarn/bb-remote-execution/pkg/filesystem/pool"
 	"github.com/buildbarn/bb-remote-execution/pkg/proto/remoteworker"
@@ -282,20 +283,29 @@ func (e *instrumentedExecutor) Execute(ctx context.Context, filePool pool.FilePo
 	t := w.t
 	k := w.k
 	// We were just resumed from the actor's "start" park point.
+	if w.abandon {
+		return builder.NewDefaultExecuteResponse(request)
+	}
 	var sc execScript
 	sc.updates = pick(t, []int{2, 0, 1, 3, 5, 10, 11, 12})
 	sc.result = t.Weighted([]int{6, 2, 5})
 	sc.untilCancel = t.Bool(1, 4)
-	sc.obey = t.Weighted([]int{6, 3, 1})
-	sc.latency = 1 + t.Choice(3)
+	sc.obey = t.Weighted([]int{4, 5, 1})
+	sc.latency = 1 + t.Choice(6)
 	if sc.untilCancel && sc.obey == 2 {
 		sc.obey = 1
 	}
 	act := w.orc.onExecEnter(ctx, request, digestFunction, sc)
-	// Same channel, seen from the receiving side; only used by world.cleanup()
-	// after the run is over (a thread that terminated by time-out abandons its
-	// executor, which may sit in a send forever).
-	act.updatesRecv = *(*chan *remoteworker.CurrentState_Executing)(unsafe.Pointer(&updates))
+	// outer is the 10-slot channel BuildClient reads. Without the decorator
+	// it is `updates` itself; with it, `updates` is the decorator's
+	// unbuffered channel and its goroutine forwards to outer.
+	outer := act.outer
+	if outer == nil {
+		outer = updates
+	}
+	abandoned := func() *remoteexecution.ExecuteResponse {
+		return builder.NewDefaultExecuteResponse(request)
+	}
 
 	cancelled := func() bool {
 		if ctx.Err() == nil {
@@ -303,52 +313,66 @@ func (e *instrumentedExecutor) Execute(ctx context.Context, filePool pool.FilePo
 		}
 		if !act.seenCancel {
 			act.seenCancel = true
-			w.orc.note("executor #%d observes cancellation", act.n)
+			w.orc.note("executor #%d observes cancellation (reaction: %s)", act.n, [...]string{"prompt", "slow", "ignore"}[sc.obey])
+			k.Probe("executor-observes-cancellation:" + [...]string{"prompt", "slow", "ignore"}[sc.obey])
 		}
 		return sc.obey != 2
 	}
 	stopping := cancelled()
 	for i := 0; i < sc.updates && !stopping; i++ {
 		k.SeamW("exec-step", w.execWeight, 0)
+		if w.abandon {
+			return abandoned()
+		}
+		if w.decorated && act.forwardMayBeBlocked && len(outer) == cap(outer) {
+			// The decorator's goroutine may still sit in its forwarding
+			// send of our previous update. A second update handed to it
+			// now would be forwarded in the very step in which the thread
+			// frees it, concurrently with the thread's non-blocking drain.
+			k.SeamWhen("exec-forward-wait", func() bool { return len(outer) < cap(outer) || ctx.Err() != nil || w.abandon })
+			if w.abandon {
+				return abandoned()
+			}
+		}
 		if stopping = cancelled(); stopping {
 			break
 		}
 		u := updateStates[i%len(updateStates)]()
 		u.ActionDigest = request.ActionDigest
-		w.orc.onUpdateSent(act, u, len(updates) == cap(updates))
-		// May block while the 10-slot channel is full. Nothing below
-		// touches shared state before the next park point.
+		full := len(outer) == cap(outer)
+		act.forwardMayBeBlocked = full
+		w.orc.onUpdateSent(act, u, full)
+		// May block while the 10-slot channel is full (directly, or in the
+		// decorator's goroutine). Nothing below touches shared state before
+		// the next park point.
 		updates <- u
 	}
 	if !stopping {
 		if sc.untilCancel {
-			k.SeamWhen("exec-wait-cancel", func() bool { return ctx.Err() != nil })
-			stopping = cancelled()
+			k.SeamWhen("exec-wait-cancel", func() bool { return ctx.Err() != nil || w.abandon })
 		} else {
 			k.SeamW("exec-finish", w.execWeight, 0)
-			stopping = cancelled()
 		}
+		if w.abandon {
+			return abandoned()
+		}
+		stopping = cancelled()
 	}
 	if stopping && sc.obey == 1 {
+		// Winding down (killing the process, cleaning the build directory)
+		// takes a drawn number of steps.
 		for i := 0; i < sc.latency; i++ {
 			k.Yield("exec-stopping")
+			if w.abandon {
+				return abandoned()
+			}
+			act.windDownSteps++
+			k.Probe("wind-down-step")
 		}
 	}
-	// Gate of the return: build_client.go follows Execute() by `updates <-
-	// completed; close(updates)` without a park point in between. If that
-	// send blocked on a full channel while the thread sits between its first
-	// receive and consumeExecutionUpdatesNonBlocking(), the close would race
-	// with the thread's non-blocking drain (Go scheduler nondeterminism that
-	// the simulator cannot own). All other positions of the thread are
-	// deterministic, see README of this world (meta.json assumptions).
-	k.SeamWhen("exec-return", func() bool {
-		return len(updates) < cap(updates) || w.thread.TicketLabel() != "timer-stop"
-	})
 	cancelledNow := ctx.Err() != nil
-	resp := &remoteexecution.ExecuteResponse{
-		Message: fmt.Sprintf("marker:act#%d", act.n),
-		Result:  &remoteexecution.ActionResult{},
-	}
+	resp := builder.NewDefaultExecuteResponse(request)
+	resp.Message = fmt.Sprintf("marker:act#%d", act.n)
 	switch {
 	case stopping:
 		resp.Status = &status_pb.Status{Code: int32(codes.Canceled), Message: "cancelled " + resp.Message}
@@ -357,6 +381,49 @@ func (e *instrumentedExecutor) Execute(ctx context.Context, filePool pool.FilePo
 	case sc.result == 2:
 		resp.Status = &status_pb.Status{Code: int32(codes.Internal), Message: "failed " + resp.Message}
 	}
-	w.orc.onExecReturn(act, resp, cancelledNow, len(updates) == cap(updates))
+	w.orc.onExecReturn(act, resp, cancelledNow, len(outer) == cap(outer))
+	return resp
+}
+
+// ---------------------------------------------------------------------------
+// stackExecutor is what BuildClient gets: a transparent shim around the
+// executor stack (the real TimestampedBuildExecutor over the instrumented
+// executor, or the instrumented executor alone). It records entry and return
+// of the stack's Execute() and the channel BuildClient reads, and holds the
+// gate of the return.
+// ---------------------------------------------------------------------------
+
+type stackExecutor struct {
+	w    *world
+	base builder.BuildExecutor
+}
+
+func (s *stackExecutor) CheckReadiness(ctx context.Context) error {
+	return s.base.CheckReadiness(ctx)
+}
+
+func (s *stackExecutor) Execute(ctx context.Context, filePool pool.FilePool, monitor access.UnreadDirectoryMonitor, digestFunction digest.Function, request *remoteworker.DesiredState_Executing, updates chan<- *remoteworker.CurrentState_Executing) *remoteexecution.ExecuteResponse {
+	w := s.w
+	if w.abandon {
+		return builder.NewDefaultExecuteResponse(request)
+	}
+	// Same channel, seen from the receiving side; only used by
+	// world.cleanup() after the verdict is final.
+	act := w.orc.onStackEnter(request, updates, *(*chan *remoteworker.CurrentState_Executing)(unsafe.Pointer(&updates)))
+	resp := s.base.Execute(ctx, filePool, monitor, digestFunction, request, updates)
+	w.orc.onStackReturn(act)
+	// Gate of the return: build_client.go follows Execute() by `updates <-
+	// completed; close(updates)` without a park point in between. If that
+	// send blocked on a full channel while the thread sits between its first
+	// receive and consumeExecutionUpdatesNonBlocking(), the close would race
+	// with the thread's non-blocking drain (Go scheduler nondeterminism that
+	// the simulator cannot own). All other positions of the thread are
+	// deterministic (see meta.json assumptions).
+	w.k.SeamWhen("exec-return", func() bool {
+		return len(updates) < cap(updates) || w.thread.TicketLabel() != "timer-stop" || w.abandon
+	})
+	if !w.abandon {
+		act.released = true
+	}
 	return resp
 }
